@@ -110,9 +110,6 @@ theorem code_readonly (q : Heap.T → Nat → Heap.T × Nat) (hq : Heap.QOK q) (
 section cache
 variable {K W : Type} [DecidableEq K]
 
-/-- every stored regexp is the compilation of its key -/
-def Coherent (comp : K → Option W) (cache : K → Option W) : Prop := ∀ k v, cache k = some v → comp k = some v
-
 /-- **The regexp cache is grow-only and coherent**, hence invisible: under every interleaving of the
     atomic `Load` / `Store` steps of any number of `compileRegexp` calls, starting from a coherent cache,
     the cache stays coherent and only grows, no call changes its key, and every call that has returned
